@@ -275,7 +275,7 @@ Theorem pos_ok :
                 inline ps ts (FPos (flat_map (tok_vals inp) (i_toks inp))) = Some sp.
 Proof.
   unfold run, compile. rewrite Hnum, Hps, (positiontup_in_text_order tab inp W ps). cbn [bind c_toks c_positiontup].
-  destruct (has_postcompile inp) eqn:HP.
+  destruct (i_pc inp) eqn:HP.
   - unfold postcompile. rewrite Hps. cbn [c_toks c_positiontup].
     destruct (pc_loop tab lit empty_expr ps inp W (names_of (i_toks inp)) (names_of_order tab inp W)) as [st [E I]].
     unfold init_state in E. rewrite E. cbn [bind].
@@ -298,7 +298,7 @@ Proof.
     + intros n Hn. destruct (w_pc _ _ W n Hn) as [A B]. apply (v_repl_in _ _ _ _ _ _ _ I n); [|exact B].
       unfold names_of. apply in_flat_map. exists (PC n). split; [exact Hn|left; reflexivity].
   - assert (Hno : forall n, ~ In (PC n) (i_toks inp)).
-    { intros n Hn. destruct (w_pc _ _ W n Hn) as [A B]. apply B. exact (has_postcompile_false inp n HP A). }
+    { intros n Hn. destruct (w_pc _ _ W n Hn) as [A B]. apply B. exact (has_postcompile_false tab inp n W HP A). }
     rewrite <- (no_pc_final tab lit empty_expr ps inp bpos (i_toks inp) Hno).
     destruct (pos_tokens [] (init_state inp) (i_toks inp) (Inv_init tab lit empty_expr ps inp W)) as [sp [S1 [S2 S3]]].
     + exact (w_bind _ _ W).
